@@ -63,6 +63,8 @@ type C01RunResult struct {
 	SchedHash uint64             `json:"sched_hash,omitempty"` // hash of the order in which jobs finished
 	TopSkip   []string           `json:"top_skip,omitempty"`   // file-typed top-level outputs (rewritten by post-processing)
 	HasPaths  bool               `json:"has_paths,omitempty"`  // some job argument mentions a path inside the pipestance
+	CallGraph string             `json:"callgraph,omitempty"`  // plain programs: the real compiler's resolved inputs / outputs (c01_static.go)
+	CGErr     string             `json:"cg_err,omitempty"`
 }
 
 func c01RunSpec(spec *TASpec, scratch string) *C01RunResult {
@@ -98,6 +100,13 @@ func c01RunSpec(spec *TASpec, scratch string) *C01RunResult {
 		res.Unsupp = err.Error()
 	} else {
 		res.Program = prog
+	}
+	if res.Program != "" && c01Shape(spec.Src) == "plain" && !strings.Contains(spec.Src, "split ") {
+		if cg, err := c01CallGraph(spec.Src, spec.MroPaths); err == nil {
+			res.CallGraph = cg
+		} else {
+			res.CGErr = err.Error()
+		}
 	}
 	if top := run.Ast.Callables.Table[run.Ast.Call.DecId]; top != nil {
 		for _, p := range top.GetOutParams().List {
